@@ -88,7 +88,7 @@ def text_stream(seed, n, texts=(0, 2, 10), prog=None, few_cells=False, toggles=F
             ver = 1 if (gt != 10 and r.random() < 0.3) else 0
             if gt == 2:
                 if toggles and r.random() < 0.25: flag ^= 1
-                addr = r.randrange(3) if few_cells else r.randrange(16)
+                addr = r.choice([0, 1, 2, 14, 15]) if few_cells else r.randrange(16)      # first and last segments
                 low5 = (flag << 4) | addr
             elif gt == 0:
                 low5 = (r.randrange(8) << 2) | (r.randrange(2) if few_cells else r.randrange(4))
@@ -207,6 +207,7 @@ def streams(pid, tier, seed):
     stride = lambda quick, thorough: quick if q else thorough
     if pid == "C01":
         add("sweepB", gen.sweep_block_b(stride(8, 1), seed))
+        add("edges", gen.sweep_edges())
         add("mixed", mixed_stream(seed, 25000 if q else 400000, ext=False)[0])
     elif pid == "C02":
         add("sweepChars", gen.sweep_chars(stride(2, 1), seed))
@@ -238,18 +239,23 @@ def streams(pid, tier, seed):
     elif pid == "C06":
         for t in range(3):
             add("thr%d" % t, gen.sweep_thresholds(t, stride(48, 2), seed + t))
+        # the narrow build has a character rule of its own (bytes >= 0x7F): the same sweep on that build
+        add("thrN", gen.sweep_thresholds(seed % 3, stride(96, 2), seed + 5), "n")
         add("text", text_stream(seed, 8000 if q else 200000))
     elif pid == "C07":
         add("prog", text_stream(seed, 20000 if q else 400000, prog=1, few_cells=True))
         add("progmix", text_stream(seed + 1, 15000 if q else 300000, few_cells=True, toggles=True))
     elif pid == "C08":
         add("rt", rt_stream(seed, 30000 if q else 500000))
+        add("flaghist", gen.sweep_rt_flag_histories(4 if q else 5))
         add("rtfew", text_stream(seed + 1, 10000 if q else 200000, texts=(2,), few_cells=True, toggles=True))
     elif pid == "C09":
         add("ext", ext_stream(seed, 30000 if q else 500000))
+        add("edges", gen.sweep_edges())
         add("sweepC", gen.sweep_block_c(stride(32, 2), seed))
     elif pid == "C10":
         add("sweepC", gen.sweep_block_c(stride(8, 1), seed))
+        add("afhist", gen.sweep_af_histories())
         add("ext", ext_stream(seed, 10000 if q else 200000))
     elif pid == "C11":
         add("sweepEcc", gen.sweep_ecc(stride(8, 1), seed))
@@ -297,7 +303,7 @@ def twin_specs(pid, tier, seed):
         for i in range(reps): T.append(("c03e_%d" % i, twins.twin_c03(seed * 1000 + 500 + i, 6000 if q else 40000, style="early"), "u", "u"))
     elif pid == "C13":
         for i in range(reps * 4): T.append(("c13_%d" % i, twins.twin_c13(seed * 1000 + i, 300 + 200 * (i % 5), 1500 if q else 6000), "u", "u"))
-        for k in range(48): T.append(("c13edge_%d" % k, twins.twin_c13_edge(k), "u", "u"))
+        for k in range(64): T.append(("c13edge_%d" % k, twins.twin_c13_edge(k), "u", "u"))
     elif pid == "C14":
         for i in range(reps): T.append(("c14_%d" % i, twins.twin_c14(seed * 1000 + i, 5000 if q else 40000), "u", "u"))
     elif pid == "C15":
